@@ -35,6 +35,14 @@ pub fn decompress(
         compressed
     };
 
+    // Every control byte stands for at most 128 output bytes: a declared size beyond that
+    // cannot come from this stream and must not size the buffer
+    if decompressed_size > data.len().saturating_mul(128) {
+        return Err(Error::compression(
+            "RLE decompressed size exceeds what the stream can produce",
+        ));
+    }
+
     // Pre-fill with zeros
     let mut decompressed = vec![0u8; decompressed_size];
 
